@@ -5,7 +5,7 @@ for p in "$@"; do
   for v in c d; do
     f=/tmp/mut/${p}${sfx}/_out/$v/patch.diff
     [ -f $f ] || continue
-    r=$(MUTREPO=/tmp/mutrepo3 python3 /verif/tools/trymutant.py $f $tier $p 2>&1 | grep -a -E "^(C[0-9]+ rc=|PATCH)" | cut -c1-260)
+    r=$(MUTREPO=${MUTREPO:-/tmp/mutrepo3} python3 /verif/tools/trymutant.py $f $tier $p 2>&1 | grep -a -E "^(C[0-9]+ rc=|PATCH)" | cut -c1-260)
     echo "$p$v :: $r"
   done
 done
